@@ -240,11 +240,16 @@ theorem hitLt_strictTotal (ds : List Bool) : StrictTotal (hitLt ds) where
 section
 variable {φ κ : Type}
 
-/-- with `from = 0` the window of top_hits is the `size` best hits -/
-theorem hitsWindow_zero (dirs : List Bool) (size : Nat) (hs : List (List (Option Rat) × Nat)) :
-    hitsWindow dirs size 0 hs = topN (hitLt dirs) size hs := by
-  unfold hitsWindow topN hitsLimit
-  rw [List.drop_zero, List.take_take]
+/-- what `finish()` / `merge_top_hits` keep is the `from + size` best hits -/
+theorem hitsKeep_eq (dirs : List Bool) (size fromN : Nat) (hs : List (List (Option Rat) × Nat)) :
+    hitsKeep dirs size fromN hs = topN (hitLt dirs) (hitsLimit size fromN) hs := rfl
+
+/-- cutting the `from`/`size` window out of the kept hits = cutting it out of the full ranking -/
+theorem window_of_topN {α : Type} (lt : α → α → Bool) (size fromN : Nat) (l : List α) :
+    ((topN lt (hitsLimit size fromN) l).drop fromN).take size =
+      ((sortBy lt l).drop fromN).take size := by
+  unfold topN hitsLimit
+  rw [List.drop_take, List.take_take]
   congr 1
   omega
 
